@@ -308,7 +308,7 @@ impl Part for LibPart {
         "sessions of 1..8 steps over {client message of 1..3 statements from a class-labelled PostgreSQL grammar (plain reads of depth <= 3: joins, set operations, CTEs, sub-selects, LATERAL; locking reads; SELECT INTO; data-modifying CTEs; DML incl. WITH..INSERT/UPDATE; MERGE; DDL; utility; transaction start) as Query or Parse, SET SERVER ROLE, SET PRIMARY READS} × default_role × primary_reads_enabled; the real QueryRouter is driven as client.rs drives it; oracle: for every parser-accepted message role() equals the label model (non-read => primary; reads => replica/any; pinned role until changed). Non-trivial = message containing a non-read class other than plain DML, or a message after a role override".into()
     }
     fn cases(&self, tier: Tier) -> u64 {
-        tier.pick(60_000, 3_000_000)
+        tier.pick(240_000, 6_000_000)
     }
     fn strategy(&self, _tier: Tier) -> BoxedStrategy<LibCase> {
         (0u8..3, any::<bool>(), prop::collection::vec(step_strategy(), 1..9))
